@@ -47,7 +47,7 @@ func Load(cfg Config) (*Program, error) {
 		Dir:        cfg.Dir,
 		Overlay:    cfg.Overlay,
 		BuildFlags: []string{"-tags=" + cfg.Tags},
-		Env:        append(os.Environ(), "GOFLAGS=-mod=mod", "GOPROXY=off", "GOSUMDB=off", "GOTOOLCHAIN=local"),
+		Env:        append(os.Environ(), "GOFLAGS=-mod=mod", "GOPROXY=off", "GOSUMDB=off", "GOTOOLCHAIN=local", "PATH=/opt/veriftools/go1.26.8/bin:"+os.Getenv("PATH")),
 	}
 	pkgs, err := packages.Load(pc, cfg.Pkg)
 	if err != nil {
@@ -135,13 +135,32 @@ func RunHarness(p *Program, cfg Config, name string) (*Result, error) {
 	}
 	nw := cfg.Workers
 	if nw <= 0 {
-		nw = runtime.NumCPU()
+		// each worker drives its own z3 process: half the cores each
+		nw = runtime.NumCPU() / 2
+		if nw < 1 {
+			nw = 1
+		}
 	}
 	solverBin := cfg.Solver
 	if solverBin == "" {
 		solverBin = "z3"
 	}
 	t0 := time.Now()
+	stopTick := make(chan struct{})
+	go func() {
+		tk := time.NewTicker(20 * time.Second)
+		defer tk.Stop()
+		for {
+			select {
+			case <-stopTick:
+				return
+			case <-tk.C:
+				e.mu.Lock()
+				fmt.Fprintf(os.Stderr, "  [%s %.0fs] paths=%d queued=%d active=%d ended=%v violations=%d\n", name, time.Since(t0).Seconds(), e.Stats.Paths, len(e.queue), e.active, e.Stats.PathsEnded, len(e.Violations))
+				e.mu.Unlock()
+			}
+		}
+	}()
 	var wg sync.WaitGroup
 	var mu sync.Mutex
 	funcs := map[*ssa.Function]int{}
@@ -227,6 +246,7 @@ func RunHarness(p *Program, cfg Config, name string) (*Result, error) {
 		}(w)
 	}
 	wg.Wait()
+	close(stopTick)
 	if firstErr != nil {
 		return nil, firstErr
 	}
